@@ -14,6 +14,11 @@ fn any_chunker() -> Option<Chunker> {
     if kani::any() { Some(if kani::any() { Chunker::Rabin } else { Chunker::FixedSize }) } else { None }
 }
 
+/// stub for config.rs's private error-text builder (formats a ByteSize as a float: flt2dec bignum loops)
+fn stub_size_too_large(_err: std::num::TryFromIntError, _size: ByteSize) -> Box<RusticError> {
+    RusticError::new(ErrorKind::Internal, "")
+}
+
 pub(crate) fn any_config() -> ConfigFile {
     let c = ConfigFile {
         version: kani::any(),
@@ -65,17 +70,21 @@ pub(crate) fn any_options() -> ConfigOptions {
 //@ prop: C18
 //@ tier: quick
 //@ timeout: 600
-//@ unwindset: EcoVec.*extend_from_slice#0=200
+//@ unwindset: _fmt_inner#0=24
 //@ kernel: ConfigOptions::apply, check_rabin_params, ConfigFile::{chunker,chunk_size,chunk_min_size,chunk_max_size}
 //@ bound: all 16 ConfigOptions fields and all 18 scalar ConfigFile fields symbolic over their full types (version in {1,2}); chunker_polynomial/id concrete (not read by apply)
 //@ oracle: apply never panics (overflow/unwrap/index checks); Ok => every field whose option is None is unchanged, every named field has the requested value, version does not decrease
 //@ assume: stored config has version 1 or 2 (only versions apply/init ever write)
-//@ stub: std::backtrace::Backtrace::capture -> disabled backtrace; alloc::fmt::format -> empty string; zstd::compression_level_range -> -131072..=22 (zstd's documented range)
+//@ stub: RusticError::{new,attach_context,attach_source} and config::construct_size_too_large_error -> same error kind without text (error text is not the subject; the last one formats a ByteSize as a float); std::backtrace::Backtrace::capture -> disabled backtrace; alloc::fmt::format -> empty string; zstd::compression_level_range -> -131072..=22 (zstd's documented range)
 #[kani::proof]
 #[kani::unwind(4)]
 #[kani::stub(std::backtrace::Backtrace::capture, crate::error::verif_harness::stub_backtrace_capture)]
+#[kani::stub(crate::error::RusticError::new, crate::error::verif_harness::stub_rustic_new)]
+#[kani::stub(crate::error::RusticError::attach_context, crate::error::verif_harness::stub_attach_context)]
+#[kani::stub(crate::error::RusticError::attach_source, crate::error::verif_harness::stub_attach_source)]
 #[kani::stub(zstd::compression_level_range, crate::error::verif_harness::stub_level_range)]
 #[kani::stub(alloc::fmt::format, crate::error::verif_harness::stub_format)]
+#[kani::stub(crate::commands::config::construct_size_too_large_error, stub_size_too_large)]
 pub(crate) fn c18_config_apply_frame() {
     let mut config = any_config();
     let old = config.clone();
@@ -132,7 +141,7 @@ pub(crate) fn c18_config_apply_frame() {
 //@ prop: C18
 //@ tier: quick
 //@ timeout: 900
-//@ unwindset: EcoVec.*extend_from_slice#0=200
+//@ unwindset: _fmt_inner#0=24
 //@ kernel: ConfigOptions::apply, check_rabin_params, ConfigFile::{zstd,chunk_size,chunk_min_size,chunk_max_size,chunker}
 //@ bound: options/config fully symbolic as in c18_config_apply_frame
 //@ oracle: Ok(apply) => the resulting configuration is internally usable: chunk size > 0, rabin parameters pass check_rabin_params without panic and leave room for the 64-byte window (min >= 64 is NOT demanded; that is C06's harness), zstd() is Ok, compression level is inside zstd's range and 0 for v1
@@ -141,8 +150,12 @@ pub(crate) fn c18_config_apply_frame() {
 #[kani::proof]
 #[kani::unwind(4)]
 #[kani::stub(std::backtrace::Backtrace::capture, crate::error::verif_harness::stub_backtrace_capture)]
+#[kani::stub(crate::error::RusticError::new, crate::error::verif_harness::stub_rustic_new)]
+#[kani::stub(crate::error::RusticError::attach_context, crate::error::verif_harness::stub_attach_context)]
+#[kani::stub(crate::error::RusticError::attach_source, crate::error::verif_harness::stub_attach_source)]
 #[kani::stub(zstd::compression_level_range, crate::error::verif_harness::stub_level_range)]
 #[kani::stub(alloc::fmt::format, crate::error::verif_harness::stub_format)]
+#[kani::stub(crate::commands::config::construct_size_too_large_error, stub_size_too_large)]
 pub(crate) fn c18_config_accepted_is_usable() {
     let mut config = any_config();
     // inductive hypothesis on the stored configuration
